@@ -131,7 +131,7 @@ func findFlush(c *Ctx) *flushShape {
 	for fn := range sh.scope {
 		fns = append(fns, fn)
 	}
-	sort.Slice(fns, func(i, j int) bool { return fns[i].Pos() < fns[j].Pos() })
+	sort.Slice(fns, func(i, j int) bool { return ir.PosLess(fns[i].Pos(), fns[j].Pos()) })
 	for _, fn := range fns {
 		for _, ci := range CallsOf(fn) {
 			if w, ok := syncCall(ci, "WaitGroup", "Wait"); ok {
@@ -876,7 +876,7 @@ func (sh *flushShape) errKey() string {
 	for body := range sh.workerFns() {
 		bodies = append(bodies, body)
 	}
-	sort.Slice(bodies, func(i, j int) bool { return bodies[i].Pos() < bodies[j].Pos() })
+	sort.Slice(bodies, func(i, j int) bool { return ir.PosLess(bodies[i].Pos(), bodies[j].Pos()) })
 	for _, body := range bodies {
 		for _, b := range body.Blocks {
 			for _, ins := range b.Instrs {
